@@ -1,4 +1,4 @@
-import Cppcms.C06.RefineE
+import Cppcms.C06.RefineF
 /-!
 # C06 — property theorems
 
@@ -435,6 +435,29 @@ theorem exposed_cookies_in_step_history (cfg : Cfg) (env : Env) (bound : Nat) (n
   have h0 : JarOK cfg env ⟨[], []⟩ 0 now0 Jar.empty := jarOK_nil cfg env _ 0 now0 Jar.empty rfl (fun _ hp => by cases hp)
   obtain ⟨a, b⟩ := jar_in_step_run cfg env bound now0 ⟨⟨[], []⟩, 0, Jar.empty⟩ evs he hf (storeInv_empty env) h0 h
   exact ⟨a, fun t ht ss hss k hk => (b.step t ht ss hss).1 k hk⟩
+
+/-- **The memory storage's index mirrors its map, and the list model is its abstraction.**  `MemStore` models both
+containers of `session_memory_storage` (`map_`, and the `timeout_` multimap with the entries' `timeout_ptr` nodes).
+`MemRel ms l`: the index is exactly the (deadline, key) list of the records `l`, the map binds each key to its record,
+one record per key.  `save`, `remove` and `load` preserve the relation and agree with the list model used everywhere
+else (so the refinement theorems above apply to the two-container storage). -/
+theorem mem_storage_refines (now : Int) (key : Bytes) (to : Int) (value : Bytes) (ms : MemStore) (st : Store) (h : MemRel ms st.recs) :
+    MemRel (ms.save now key to value) (st.save .memory now key to value).recs ∧
+    MemRel (ms.remove now key) (st.remove .memory now key).recs ∧
+    ms.load now key = (st.load .memory now key).1 :=
+  ⟨memRel_save now key to value ms st h, memRel_remove now key ms st h, memRel_load now key ms st h⟩
+
+/-- **`short_gc` removes only expired entries** (at most `gcMax` of them, from the head of the index) and leaves every
+other binding of the map exactly as it was. -/
+theorem gc_removes_only_expired (now : Int) (ms : MemStore) (l : List Rec) (h : MemRel ms l) (k : Bytes) :
+    mfind k (memShortGc now ms).map = mfind k ms.map ∨
+    (∃ e, mfind k ms.map = some e ∧ e.timeout < now ∧ mfind k (memShortGc now ms).map = none) :=
+  memGc_only_expired Gen.gcMax now ms l h k
+
+example : MemRel ⟨[], []⟩ [] := ⟨rfl, fun _ => rfl, trivial⟩
+-- three sessions, two of them expired when the third is renewed: the index keeps mirroring the map
+example : ((((⟨[], []⟩ : MemStore).save 1000 [1] 1010 [7]).save 1001 [2] 1005 [8]).save 1002 [3] 1100 [9]).save 1050 [3] 1200 [9] =
+    ⟨[([3], ⟨1200, [9]⟩)], [(1200, [3])]⟩ := by decide +kernel
 
 /-- **The 10 % renewal window** as the source has it (`delta < timeout_val_ * 0.1` with
 `delta = now + timeout_val_ - timeout_in_`): an unchanged renew/browser session is not rewritten while fewer
